@@ -599,6 +599,53 @@ def header_pointer_packet(tid_hi_label=True):
     return bytes(b)
 
 
+def jumbo_packet(second_at, big_rdlen=None, second=None):
+    """An accepted response larger than 64 KiB: question a/A, a TXT record that runs up to offset `second_at`, then a second
+    record (default: an A record whose owner is a pointer to the question). `big_rdlen` fixes the TXT data length instead
+    (the second record then follows wherever that ends)."""
+    hdr = struct.pack(">HHHHHH", 0x4a4a, 0x8180, 1, 2, 0, 0) + wire_name([b"a"]) + struct.pack(">HH", 1, 1)
+    start = len(hdr) + 2 + 10
+    rdlen = big_rdlen if big_rdlen is not None else second_at - start
+    assert 1 <= rdlen <= 65535, rdlen
+    data = bytearray()
+    left = rdlen
+    while left > 0:
+        k = min(255, left - 1)
+        data += bytes([k]) + b"t" * k
+        left -= k + 1
+    rec1 = b"\xc0\x0c" + struct.pack(">HHIH", 16, 1, 9, rdlen) + bytes(data)
+    rec2 = second if second is not None else b"\xc0\x0c" + struct.pack(">HHIH", 1, 1, 7, 4) + b"\xc0\x00\x02\x01"
+    return hdr + rec1 + rec2
+
+
+def label_at_packets(T):
+    """Accepted responses in which a label starts at offset exactly T (a TXT pad before it) and every kind of name - owner, NS,
+    CNAME, PTR, MX, SOA (both) - is a pointer to it: T = 255, 256, 257, 512 ... exercises the low byte of the pointer."""
+    hdr = lambda n: struct.pack(">HHHHHH", 0x5151, 0x8180, 1, n, 0, 0) + wire_name([b"a"]) + struct.pack(">HH", 1, 1)
+    rrb = lambda nm, t, rd: nm + struct.pack(">HHIH", t, 1, 77, len(rd)) + rd
+    base = len(hdr(0))
+    pad = T - base - 12          # pad record = 2-byte owner + 10 fixed bytes + `pad` bytes of character-strings
+    if pad < 2:
+        return []
+    txt = b""
+    rest = pad
+    while rest > 0:
+        k = min(255, rest - 1)
+        if rest - (k + 1) == 1:  # never leave a single byte (a character-string needs its length byte plus >= 0 bytes: fine) - keep it simple
+            k -= 1
+        txt += bytes([k]) + b"p" * k
+        rest -= k + 1
+    padrec = rrb(b"\xc0\x0c", 16, txt)
+    off = base + len(padrec)
+    assert off == T, (off, T)
+    anchor = rrb(wire_name([b"anchor", b"zone"]), 1, b"\1\2\3\4")   # owner name starts exactly at T
+    ptr = struct.pack(">H", 0xc000 | T)
+    recs = [padrec, anchor, rrb(ptr, 1, bytes([5, 6, 7, 8])), rrb(b"\xc0\x0c", 2, ptr), rrb(b"\xc0\x0c", 5, b"\3www" + ptr),
+            rrb(b"\xc0\x0c", 12, ptr), rrb(b"\xc0\x0c", 15, b"\0\5" + ptr), rrb(b"\xc0\x0c", 15, b"\0\7\4mail" + ptr),
+            rrb(b"\xc0\x0c", 6, ptr + ptr + bytes(range(20))), rrb(b"\xc0\x0c", 6, b"\2ns" + ptr + b"\5admin" + ptr + bytes(range(20)))]
+    return [hdr(len(recs)) + b"".join(recs)]
+
+
 def name_of_wire_len(n):
     """labels whose wire length is exactly n (n >= 1)."""
     labels = []
